@@ -13,3 +13,12 @@ func VerifXMLIOFault(n int) {
 		return (&Minifier{}).Minify(nil, w, r, nil)
 	})
 }
+
+var verifXMLTruncDoc = "<?xml version=\"1.0\"?><!DOCTYPE a><a b=\"c\" d='e'><!-- c --><?pi x?><![CDATA[y]]> t <b/></a><?foo bar?>"
+
+// VerifXMLIOFaultTruncated: C14 on every prefix of a document that uses every token kind.
+func VerifXMLIOFaultTruncated(n int) {
+	verifIOFaultTruncated([]byte(verifXMLTruncDoc), func(w io.Writer, r io.Reader) error {
+		return (&Minifier{}).Minify(nil, w, r, nil)
+	})
+}
